@@ -45,6 +45,7 @@ struct EngineCfg {
   int threads = 1;
   bool closed_loop = false;       // atoms integrate under F_sys + F_colvars (velocity Verlet)
   bool frozen = false;            // atoms do not move at all
+  bool setup_each_run = false;    // LAMMPS-like protocol: every run re-reads the engine parameters and calls setup_input()/setup_output()
   uint64_t noise_seed = 7;
   int log_keep = 400;
   void to_json(J &j) const;
